@@ -141,3 +141,53 @@ Example C18_nonvacuous_inadmissible :
   inadmissible (tar_ex 3 (Prev 2 true)) (init_world 1 fs_ex).
 Proof. right. right. right. exists 2%N, true. split; [reflexivity|right; discriminate]. Qed.
 Print Assumptions C18_nonvacuous_inadmissible.
+
+(* --- member names ----------------------------------------------------------------------- *)
+(* a member name accepted by safeTarEntryPath has no ".." component left after the lexical
+   Clean, so joining it to the staging directory stays below the staging directory *)
+Theorem C18_safe_entry :
+  forall name cl, safe_entry name = Some cl -> forall c, In c cl -> is_dotdot c = false.
+Proof. exact safe_entry_no_dotdot. Qed.
+Print Assumptions C18_safe_entry.
+
+(* "../x", "/abs", "a/../../b", "..\x" are rejected; "a/./b//c" is accepted as a/b/c *)
+Example C18_safe_entry_nonvacuous :
+  safe_entry [46;46;47;120] = None /\ safe_entry [47;97;98;115] = None /\
+  safe_entry [97;47;46;46;47;46;46;47;98] = None /\ safe_entry [46;46;92;120] = None /\
+  safe_entry [97;47;46;47;98;47;47;99] = Some [[97];[98];[99]].
+Proof. vm_compute. repeat split. Qed.
+Print Assumptions C18_safe_entry_nonvacuous.
+
+(* --- version discovery after a rollback (partial) ---------------------------------------- *)
+(* With the current-manifest fix: in any state reached by a history from an installed tree in
+   which a completed snapshot is recorded, a rollback that reports success leaves current-manifest
+   at the journal's from-version, and a tarball declaring any other predecessor is then refused
+   without touching anything.
+   PARTIAL: the statement "current-manifest always names the version the installed artifacts belong
+   to" over all histories (ghost g_inst = cur as an invariant, incl. ForceRetry) is not proved; the
+   code as it is today violates it (C18_wrong_predecessor_refuted). *)
+Theorem C18_wrong_predecessor_after_rollback_partial :
+  forall c f ops w out, In (w, out) (run repaired (init_world c f) ops) ->
+  forall F w' b gi T Q F' pv wf,
+  g_base w = Some (true, b, gi) -> rollback_flow repaired F w = (w', RbOk) ->
+  t_prev T = Prev pv wf -> option_map j_from (jr w) <> Some pv ->
+  apply repaired T Q F' w' = (w', RErr) /\ option_map j_from (jr w) = Some (cur w').
+Proof.
+  exact (fun c f ops w out Hin F w' b gi T Q F' pv wf Hg Hr Hp Hne =>
+    let Hi := run_Inv repaired ops _ (Inv_init repaired c f) eq_refl w out Hin in
+    conj (wrong_predecessor_after_rollback repaired F w w' b gi T Q F' pv wf eq_refl Hi Hg Hr Hp Hne)
+         (rollback_resets_version repaired F w w' b gi eq_refl Hi Hg Hr)).
+Qed.
+Print Assumptions C18_wrong_predecessor_after_rollback_partial.
+
+(* non-vacuity: upgrade 1 -> 2 completes, rollback succeeds, a tarball with predecessor 2 is refused *)
+Example C18_wrong_predecessor_nonvacuous :
+  exists w w',
+    In (w, (ROk, MonOk)) (run repaired (init_world 1 fs_ex) [OpApply (tar_ex 2 PrevNone) no_opts no_faults]) /\
+    rollback_flow repaired no_faults w = (w', RbOk) /\ cur w' = 1 /\
+    fst (apply repaired (tar_ex 3 (Prev 2 true)) no_opts no_faults w') = w'.
+Proof.
+  do 2 eexists. split; [vm_compute; left; reflexivity|]. split; [vm_compute; reflexivity|].
+  split; vm_compute; reflexivity.
+Qed.
+Print Assumptions C18_wrong_predecessor_nonvacuous.
